@@ -23,6 +23,9 @@ CHECKS = {
  'C12': dict(tech=B + '; sympy antiderivative certificate checked by z3', cat='model_checking',
              text='Thomson/Klein-Nishina/Compton-energy kernels from the IR: positivity, KN <= Thomson with explicit convergence bound, ratio form, range/monotonicity of the Compton energy, polarised forms affine in cos^2(phi) averaging to the unpolarised ones, dependence on angles only via cos/sin^2, CS_KN = 2 pi integral of DCS_KN by an antiderivative certificate, E <= 0 is an error',
              note='double modelled as real: rounding (e.g. cancellation in CS_KN at very low energy) is outside this claim; libm parity/periodicity, <cos^2> = 1/2 and log 1 = 0 are imported facts'),
+ 'C11': dict(tech=B, cat='model_checking',
+             text='the three build-time derivation functions of pr_data.c evaluated symbolically from the IR for all Z, shells and all 996 Auger macro values: Auger yield = 1 - omega - sum CK (CK set by macro NAME), net non-radiative total = raw total - CK-type transitions (by NAME), rate = raw/net with the source shell by NAME, CK-type reported unavailable',
+             note='double modelled as real; raw tables and FluorYield/CosKronTransProb uninterpreted; accessor side is C01; pr_data.c compiled with -Dstatic= so that clang does not specialise the static functions to their call sites'),
 }
 NA = {
  'C19': 'no symbolic engine for Java/JVM bytecode is installed (no JBMC/SPF); a hand-written Java->SMT translator for 5900 lines using ByteBuffer I/O, exceptions and collections is out of reach; see DESIGN.md C19',
